@@ -8,10 +8,11 @@ git checkout -q -- pdpy11
 git apply --check "$SD/patch.diff" || { echo "PATCH-DOES-NOT-APPLY"; exit 9; }
 git apply "$SD/patch.diff"
 T=$(/venv/bin/python -m pytest -q -p no:cacheprovider --timeout=900 --continue-on-collection-errors 2>&1 | tail -1)
-(cd /tmp && /venv/bin/python "$SD/demo.py" "$WT" > /tmp/demo_with.out 2>&1); DW=$?
+(cd /tmp && /venv/bin/python "$SD/demo.py" "$WT" > /tmp/demo_with_$$.out 2>&1); DW=$?
 git checkout -q -- pdpy11
-(cd /tmp && /venv/bin/python "$SD/demo.py" "$WT" > /tmp/demo_without.out 2>&1); DO=$?
+(cd /tmp && /venv/bin/python "$SD/demo.py" "$WT" > /tmp/demo_without_$$.out 2>&1); DO=$?
 echo "tests_with_change: $T"
-echo "demo_with_change_exit: $DW  ($(tail -1 /tmp/demo_with.out | cut -c1-160))"
+echo "demo_with_change_exit: $DW  ($(tail -1 /tmp/demo_with_$$.out | cut -c1-160))"
 echo "demo_without_change_exit: $DO"
 if echo "$T" | grep -q "180 passed" && [ $DW -ne 0 ] && [ $DO -eq 0 ]; then echo "SEED-OK"; else echo "SEED-REJECTED"; fi
+rm -f /tmp/demo_with_$$.out /tmp/demo_without_$$.out
